@@ -51,7 +51,7 @@ meta.update({"property":pid,"seed":k,"breaks":pid,"origin":"independent sub-agen
  "needs_to_manifest":notes.strip()[:1500],
  "confirmation":{"suite_with_change":suite,"demo_with_change":dw,"demo_without_change":dwo,"confirmed":conf=="yes",
    "ran":"in scratch worktree: git apply patch.diff; go test -vet=off -count=1 ./... ; go test -run TestSeedDemo ; git checkout -- . ; go test -run TestSeedDemo"},
- "quick_checks":{kv.split('=')[0]:kv.split('=')[1] for kv in results.split()}})
+ "quick_checks":{kv.split('=',1)[0]:kv.split('=',1)[1] for kv in results.split()}})
 json.dump(meta,open(meta_path,'w'),indent=1)
 print(pid+'-'+k, "confirmed="+conf, results)
 PY
